@@ -66,8 +66,42 @@ let decode_layer (name : string) (old : n list option) (bs : n list) : string =
   | ["aes"; key] -> d (decode_aescbc (aes_dec (bytes_of_hex key))) aescbc_zero show_aescbc
   | _ -> failwith ("oracle: unknown layer " ^ name)
 
+let c07 (name : string) (shape : int) (bs : n list) : string =
+  let sh = n_of_int shape in
+  let c dec zero show enc =
+    match c07_case dec zero show enc bs with
+    | Some (e, ts) -> hex_of_bytes e ^ " ok " ^ String.concat " " (List.map tok_str ts)
+    | None -> "n/a" in
+  match name with
+  | "rmcp" -> c decode_rmcp rmcp_zero show_rmcp SpecEnc.rmcp
+  | "deviceid" -> c decode_deviceid deviceid_zero show_deviceid (SpecEnc.deviceid sh)
+  | "chassis" -> c decode_chassis chassis_zero show_chassis (SpecEnc.chassis sh)
+  | "authcaps" -> c decode_authcaps authcaps_zero show_authcaps SpecEnc.authcaps
+  | "ciphersuites" -> c decode_ciphersuites ciphersuites_zero show_ciphersuites SpecEnc.ciphersuites
+  | "sessioninfo" -> c decode_sessioninfo sessioninfo_zero show_sessioninfo (SpecEnc.sessioninfo sh)
+  | "setpriv" -> c decode_setpriv setpriv_zero show_setpriv SpecEnc.setpriv
+  | "guid" -> c decode_guid guid_zero show_guid SpecEnc.guid
+  | "reserve" -> c decode_reserve reserve_zero show_reserve SpecEnc.reserve
+  | "getsdrrsp" -> c decode_getsdrrsp getsdrrsp_zero show_getsdrrsp SpecEnc.getsdrrsp
+  | "sdrhdr" -> c decode_sdrhdr sdrhdr_zero show_sdrhdr SpecEnc.sdrhdr
+  | "sdrrepoinfo" -> c decode_sdrrepoinfo sdrrepoinfo_zero show_sdrrepoinfo SpecEnc.sdrrepoinfo
+  | "sensorreading" -> c decode_sensorreading sensorreading_zero show_sensorreading (SpecEnc.sensorreading sh)
+  | "fsr" -> c decode_fsr fsr_zero show_fsr (SpecEnc.fsr sh)
+  | "opensessionrsp" -> c decode_opensessionrsp opensessionrsp_zero show_opensessionrsp (SpecEnc.opensessionrsp sh)
+  | "rakp2" -> c decode_rakp2 rakp2_zero show_rakp2 (SpecEnc.rakp2 sh)
+  | "rakp4" -> c decode_rakp4 rakp4_zero show_rakp4 (SpecEnc.rakp4 sh)
+  | "dcmicaps" -> c decode_dcmicaps dcmicaps_zero show_dcmicaps SpecEnc.dcmicaps
+  | "dcmimand" -> c decode_dcmimand dcmimand_zero show_dcmimand SpecEnc.dcmimand
+  | "dcmiopt" -> c decode_dcmiopt dcmiopt_zero show_dcmiopt SpecEnc.dcmiopt
+  | "dcmimgmt" -> c decode_dcmimgmt dcmimgmt_zero show_dcmimgmt SpecEnc.dcmimgmt
+  | "dcmipower" -> c decode_dcmipower dcmipower_zero show_dcmipower SpecEnc.dcmipower
+  | "powerreading" -> c decode_powerreading powerreading_zero show_powerreading SpecEnc.powerreading
+  | "dcmisensor" -> c decode_dcmisensor dcmisensor_zero show_dcmisensor SpecEnc.dcmisensor
+  | _ -> failwith ("oracle: c07: unknown layer " ^ name)
+
 let handle (w : string list) : string =
   match w with
+  | ["c07"; layer; shape; h] -> c07 layer (int_of_string shape) (bytes_of_hex h)
   | ["cbcenc"; key; iv; pt] ->
       hex_of_bytes (cbc_encrypt (aes_enc (bytes_of_hex key)) (bytes_of_hex iv) (bytes_of_hex pt))
   | ["cbcdec"; key; iv; ct] ->
